@@ -16,6 +16,10 @@ def sh(cmd, cwd=None, timeout=1800):
 diff = os.path.join(outdir, f"{mn}.diff")
 meta = json.load(open(os.path.join(outdir, f"{mn}.json")))
 demo = os.path.join(outdir, f"{mn}_demo_test.go")
+TAG0 = os.environ.get("SEED_TAG", "")
+prev_path = f"/verif/seeded/{prop}-{TAG0}{mn}/meta.json"
+prev = json.load(open(prev_path)) if os.path.exists(prev_path) else None
+REUSE = os.environ.get("SEED_REUSE") == "1" and prev and prev.get("valid")
 wt = f"/tmp/seedwt-{os.getpid()}"
 sh(["git", "-C", "/repo", "worktree", "remove", "--force", wt])
 rc, o = sh(["git", "-C", "/repo", "worktree", "add", "-q", "--detach", wt, "HEAD"]); assert rc == 0, o
@@ -27,6 +31,9 @@ def apply(d):
         rc, o = sh(f"patch -p1 --fuzz=3 < {diff}", cwd=d)
     return rc, o
 try:
+    if REUSE:
+        res["ran"] = prev["ran"]   # validated in an earlier run (scratch worktree, suite, demo)
+        raise StopIteration
     rc, o = apply(wt); res["ran"]["applies"] = rc == 0
     if rc != 0:
         print("PATCH DOES NOT APPLY", o[-500:]); raise SystemExit(3)
@@ -55,6 +62,8 @@ try:
     rc4, o4 = sh(run, cwd=wt, timeout=900)
     res["ran"]["demo_passes_without_patch"] = rc4 == 0
     if rc4 != 0: res["ran"]["demo_output_without_patch"] = o4[-600:]
+except StopIteration:
+    pass
 finally:
     sh(["git", "-C", "/repo", "worktree", "remove", "--force", wt])
 ok = res["ran"].get("builds") and not res["ran"].get("suite_missing") and res["ran"].get("demo_fails_with_patch") and res["ran"].get("demo_passes_without_patch")
@@ -75,6 +84,10 @@ if ok:
     finally:
         sh(["git", "-C", "/repo", "reset", "--hard", "-q", "HEAD"]); sh("find /repo -name '*.orig' -o -name '*.rej' | xargs -r rm -f")
 res["checks"] = checks
+if prev and prev.get("checks") and not prev.get("detected_by"):
+    res["checks_before_strengthening"] = prev.get("checks_before_strengthening") or prev["checks"]
+elif prev and prev.get("checks_before_strengthening"):
+    res["checks_before_strengthening"] = prev["checks_before_strengthening"]
 res["detected_by"] = [i for i, c in checks.items() if c["exit"] == 1 and c["violation"]]
 d = f"/verif/seeded/{prop}-{TAG}{mn}"
 os.makedirs(d, exist_ok=True)
